@@ -13,7 +13,7 @@
    statement of the skeleton was treated or when a mistake cut it.
 
    P = [dsls: the variants explored, dict: variant -> keywords of the real tool, all: every keyword
-        of the real tool, insdsls: the variants in which keyword statements are inserted, kinds:
+        of the real tool, insdsls / fordsls: the variants in which own / foreign keyword statements are inserted, kinds:
         set of mistakes, shapes: generic shapes for own keywords, fshapes: idem for the keywords of
         other variants, foreign: keywords used by foreign_kw, maxmut: budget of mistakes,
         nodsl: whether the first statement - the selection of the DSL - may be forgotten] *)
@@ -79,7 +79,8 @@ MachineStep(s, P, Sk, Lx) ==
              ELSE {})
        \cup (IF s.pos = Sk[s.dsl].ins /\ s.dsl \in P.insdsls
              THEN {Insert(s, k, sh, TRUE) : k \in OwnDict(P, s.dsl), sh \in P.shapes}
-                  \cup {Insert(s, k, sh, FALSE) : k \in ForeignDict(P, s.dsl), sh \in P.fshapes}
+                  \cup (IF s.dsl \in P.fordsls
+                        THEN {Insert(s, k, sh, FALSE) : k \in ForeignDict(P, s.dsl), sh \in P.fshapes} ELSE {})
              ELSE {})
 
 \* ---- what is produced ------------------------------------------------------------------------
